@@ -989,8 +989,14 @@ pub fn wire_run_case(case: &Value) -> crate::netrun::CaseResult {
     };
     let mut n = 0u64;
     let mut answered = 0u64;
-    for (group, c) in cfgs.iter().take(to).skip(from) {
-        let yaml = yaml_of(c);
+    for (ci, (group, c)) in cfgs.iter().enumerate().take(to).skip(from) {
+        // every third configuration also lists, at the top level, the prefix the interface's global
+        // address lies in ("simple mode" addresses): the interface's own router-advertisements
+        // section must still be what is advertised
+        let mut yaml = yaml_of(c);
+        if ci % 3 == 1 {
+            yaml = yaml.replacen("---\n", "---\naddresses: ['2001:db8:0:1::/64', 192.0.2.0/24]\n", 1);
+        }
         let Ok(Ok(conf)) = panics::catch(|| erbium::config::verif_load_config_from_string(&yaml)) else {
             continue; // rejections and loader panics are judged by the function part
         };
@@ -1086,7 +1092,10 @@ pub fn run(tier: &str, replay: Option<Value>) -> ! {
             let th = true;
             let list = wire_cfgs(th);
             let y = case["yaml"].as_str().unwrap_or("");
-            match list.iter().position(|(_, c)| yaml_of(c) == y) {
+            // (the recorded text may carry the extra top-level addresses line)
+            let y = y.replacen("addresses: ['2001:db8:0:1::/64', 192.0.2.0/24]\n", "", 1);
+            let y = y.as_str();
+            match list.iter().enumerate().position(|(i, (_, c))| yaml_of(c) == y && (!case["yaml"].as_str().unwrap_or("").contains("addresses: ['2001:db8:0:1::/64'") || i % 3 == 1)) {
                 Some(i) => {
                     let one = json!({"engine":"ewire","check":"c17","route":case["route"],"from":i,"to":i + 1,"thorough":th});
                     crate::netrun::replay_one(&mut rep, &one, wire_run_case);
@@ -1135,7 +1144,7 @@ pub fn run(tier: &str, replay: Option<Value>) -> ! {
     let wire_n = agg.stats_sum.get("wire_advertisements").copied().unwrap_or(0.0) as u64;
     rep.cov("wire_configurations_loaded", agg.stats_sum.get("wire_configs").copied().unwrap_or(0.0) as u64);
     rep.cov("wire_advertisements_judged", wire_n);
-    rep.cov("wire_rule", "the real RaAdvService (real netlink-fed NetInfo, real raw ICMPv6 socket) on one end of a veth pair in a private network namespace, one instance per configuration; a router solicitation frame is sent from the other end and the advertisement captured there is decoded by the same RFC decoder and compared with expected(configuration, environment), for three environments: no IPv6 default route, default route out of the advertising interface, default route out of another interface. Also judged: ICMPv6 checksum, IPv6 hop limit 255, link-local source, destination");
+    rep.cov("wire_rule", "the real RaAdvService (real netlink-fed NetInfo, real raw ICMPv6 socket) on one end of a veth pair in a private network namespace, one instance per configuration; a router solicitation frame is sent from the other end and the advertisement captured there is decoded by the same RFC decoder and compared with expected(configuration, environment), for three environments: no IPv6 default route, default route out of the advertising interface, default route out of another interface; every third configuration additionally lists the interface's own prefix under the top-level addresses (the explicit section must still win). Also judged: ICMPv6 checksum, IPv6 hop limit 255, link-local source, destination");
     rep.cov("evaluations", cfgs.len() as u64 + wire_n);
     rep.cov("distinct_nontrivial", distinct_yaml.len() as u64);
     rep.cov("rule", "interface configurations from the grammar (full product inside each group: header, timers, mtu x interface-mtu x lladdr, prefix lists of length <=2 (thorough <=3) over 7 prefixes, rdnss x lifetime, dnssl x lifetime, pref64 x lifetime, captive portal) x top-level defaults {absent,present} x 3 base contexts {all absent, all present, all null}; the full product of every PAIR of groups (prefix lists cut to length <=1, timers sampled every 5th); thorough also every TRIPLE of the groups with <= 60 entries; distinct = distinct YAML documents that reached the loader");
